@@ -57,7 +57,7 @@ def corr(ctx):
     ops = []
     targets = [1e-2, 1.0, 3.5, 1e3]
     scales = [1e-2, 1.0, 1e2, 1e4]
-    shapes = [(12,), (1, 12), (3, 12), (2, 3, 4), (2, 2, 3, 2)]
+    shapes = [(12,), (1, 12), (3, 12), (2, 3, 4), (2, 2, 3, 2), (1, 3, 4), (1, 2, 2, 3)]
     for fam_i in range(6):
         for shape in shapes:
             for cplx in (False, True):
@@ -113,6 +113,38 @@ def corr(ctx):
         y = PeakAmplitudeConstraint(A)(torch.tensor(vals, dtype=torch.float32).reshape(3, 9))
         ops.append(Op("cclamp %s %s" % (Fraction(A), fr(vals)), ",".join(repr(float(v)) for v in y.flatten().tolist()), cmp=cmp_rel(0.0), nontrivial=True,
                       info={"site": "constraints:PeakAmplitudeConstraint", "config": {"A": A}}, prop_ok=bool((y.abs() <= A).all())))
+    # one-sided and negative-only signals: every sample is bounded in magnitude, the others are untouched
+    for A in (0.5, 2.0):
+        for name, vals in (("negative_only", [-abs(q(rng.gauss(0, 3))) - 0.0078125 for _ in range(18)]), ("negative_constant", [-3.0 * A] * 18), ("positive_only", [abs(q(rng.gauss(0, 3))) + 0.0078125 for _ in range(18)]),
+                           ("negative_offset", [q(rng.uniform(-1, 1) * A * 0.9 - 2 * A) for _ in range(18)]), ("one_negative_outlier", [q(rng.uniform(-0.5, 0.5) * A) for _ in range(17)] + [-5.0 * A])):
+            for shape in ((18,), (2, 9), (1, 18)):
+                xv = torch.tensor(vals, dtype=torch.float32).reshape(shape)
+                y = PeakAmplitudeConstraint(A)(xv)
+                ok = bool((y.abs() <= A).all()) and bool((y == xv.clamp(-A, A)).all()) and tuple(y.shape) == shape
+                ops.append(Op("cclamp %s %s" % (Fraction(A), fr(vals)), ",".join(repr(float(v)) for v in y.flatten().tolist()), cmp=cmp_rel(0.0), nontrivial=True,
+                              info={"site": "constraints:PeakAmplitudeConstraint", "config": {"A": A, "signal": name, "shape": list(shape)}}, prop_ok=ok))
+        ctx.count("peak_one_sided")
+    # ---- PAPR: batches whose items have very different power levels (the limit is per item)
+    for limit in (2.0, 4.0):
+        for cplx in (False, True):
+            n = 64
+            mk = lambda fam_i: (lambda v: torch.complex(torch.tensor(v, dtype=torch.float32), torch.tensor(list(families(ctx, n))[fam_i][1], dtype=torch.float32)) if cplx else torch.tensor(v, dtype=torch.float32))(list(families(ctx, n))[fam_i][1])
+            flat_strong = 300.0 * mk(5)
+            const_strong = 120.0 * mk(4)
+            peaky = [mk(0), 0.02 * mk(2), mk(3)]
+            for strong in (flat_strong, const_strong):
+                for weak in peaky:
+                    pw = torch.abs(weak) ** 2
+                    if float((pw >= pw.max() / 100).float().mean()) < 0.25:
+                        continue
+                    xb = torch.stack([strong, weak, strong])
+                    y = PAPRConstraint(max_papr=limit)(xb)
+                    alone = PAPRConstraint(max_papr=limit)(weak)
+                    paprs = [float((torch.abs(r) ** 2).max() / (torch.abs(r) ** 2).mean()) for r in y]
+                    ok = all(p_ <= limit * 1.001 for p_ in paprs)
+                    ops.append(Op("cclamp 1 0", "0", nontrivial=False, info={"site": "constraints:PAPRConstraint", "config": {"limit": limit, "complex": cplx, "batched": True, "mixed_power_levels": True, "papr": paprs,
+                                  "papr_alone": float((torch.abs(alone) ** 2).max() / (torch.abs(alone) ** 2).mean())}}, prop_ok=ok))
+            ctx.count("papr_mixed_batch")
     # ---- PAPR on non-sparse signals (test of the implementation), composites, chains
     for fam_i in (0, 1, 2, 3):
         for limit in (2.0, 3.0, 6.0):
@@ -141,6 +173,25 @@ def corr(ctx):
         seq = c_(seq)
     ok = bool(torch.equal(CompositeConstraint(parts)(x), seq)) and bool(torch.equal(CU.apply_constraint_chain(parts, x), seq)) and bool(torch.equal(CU.combine_constraints(parts)(x), seq))
     ops.append(Op("cclamp 1 0", "0", nontrivial=False, info={"site": "constraints:CompositeConstraint", "config": {"parts": "peak,avg,total"}}, prop_ok=ok))
+    # nested composites, in every position, equal the flat sequential application
+    a_, b_, c_, d_ = PeakAmplitudeConstraint(1.25), AveragePowerConstraint(0.7), PeakAmplitudeConstraint(0.9), TotalPowerConstraint(3.0)
+    flat = [a_, b_, c_, d_]
+    seq = x
+    for k_ in flat:
+        seq = k_(seq)
+    nestings = {"[[a,b],c,d]": [CompositeConstraint([a_, b_]), c_, d_], "[a,[b,c],d]": [a_, CompositeConstraint([b_, c_]), d_], "[a,b,[c,d]]": [a_, b_, CompositeConstraint([c_, d_])],
+                "[[a,[b,c]],d]": [CompositeConstraint([a_, CompositeConstraint([b_, c_])]), d_], "combine([combine([a,b]),c,d])": [CU.combine_constraints([a_, b_]), c_, d_]}
+    for tag, parts_n in nestings.items():
+        outs = {"CompositeConstraint": CompositeConstraint(parts_n)(x), "combine_constraints": CU.combine_constraints(parts_n)(x), "apply_constraint_chain": CU.apply_constraint_chain(parts_n, x)}
+        for how, val in outs.items():
+            ops.append(Op("cclamp 1 0", "0", nontrivial=False, info={"site": "constraints:CompositeConstraint", "config": {"nesting": tag, "how": how, "max_dev": float((val - seq).abs().max())}}, prop_ok=bool(torch.equal(val, seq))))
+    ofc = CU.create_ofdm_constraints(total_power=2.0, max_papr=4.0)
+    lim = PeakAmplitudeConstraint(0.3)
+    xr = torch.tensor([[q(rng.gauss(0, 3)) for _ in range(64)]], dtype=torch.float32)
+    want = lim(ofc(xr))
+    got = CU.combine_constraints([ofc, lim])(xr)
+    ops.append(Op("cclamp 1 0", "0", nontrivial=False, info={"site": "constraints:CompositeConstraint", "config": {"nesting": "combine([ofdm_chain, peak])", "max_dev": float((got - want).abs().max())}}, prop_ok=bool(torch.equal(got, want))))
+    ctx.count("composite_nesting")
     xo = torch.complex(torch.tensor([[q(rng.gauss(0, 3)) for _ in range(64)]] * 1), torch.tensor([[q(rng.gauss(0, 3)) for _ in range(64)]]))[0]
     of = CU.create_ofdm_constraints(total_power=2.0, max_papr=4.0)
     y = of(xo)
